@@ -529,7 +529,7 @@ pub fn run(run: &Run) {
         "generated-all-truncations",
         run.cases(160, 3_000),
         0.5,
-        || (fx::model(), fx::layout(), any::<u8>()).prop_map(|(model, layout, which_file)| Case { base: Base::Generated { model, layout }, damage: Damage::AllTruncations, which_file, pre: vec![] }),
+        || (fx::model_small(), fx::layout(), any::<u8>()).prop_map(|(model, layout, which_file)| Case { base: Base::Generated { model, layout }, damage: Damage::AllTruncations, which_file, pre: vec![] }),
         check,
     );
     // one or two element-level damages, then every truncation offset from the first damage on
@@ -538,7 +538,7 @@ pub fn run(run: &Run) {
         run.cases(240, 5_000),
         0.3,
         || {
-            let small_base = prop_oneof![1 => Just(Base::Sample(1)), 6 => (fx::model(), fx::layout()).prop_map(|(model, layout)| Base::Generated { model, layout })];
+            let small_base = prop_oneof![1 => Just(Base::Sample(1)), 6 => (fx::model_small(), fx::layout()).prop_map(|(model, layout)| Base::Generated { model, layout })];
             (small_base, vec(element_damage(), 1..3), any::<u8>()).prop_map(|(base, pre, which_file)| Case { base, damage: Damage::AllTruncations, which_file, pre })
         },
         check,
